@@ -9,7 +9,9 @@ IsEvent(op) == l <= Len(TraceLog) /\ TraceLog[l].op = op /\ l' = l + 1
 TBegin   == IsEvent("begin")   /\ UNCHANGED dvars
 TStart   == IsEvent("start")   /\ DStart(E.n, E.disk)
 TScan    == IsEvent("scan")    /\ DScan(E.vec, E.disk, E.sized)
+TScanF   == IsEvent("scanf")   /\ DScanFaulty(E.vec, E.disk, E.sized)
 TCopy    == IsEvent("copy")    /\ DCopy(E.vec, E.disk, E.zero, E.matchable, E.usable, E.srcSame, E.outside)
+TCopyF   == IsEvent("copyf")   /\ DCopyFaulty(E.vec, E.disk, E.srcSame)
 TFindM   == IsEvent("findmatch") /\ DFindMatch(E.vec, E.pairOk)
 TReset   == IsEvent("resetfailed") /\ DResetFailed(E.vec)
 TRound   == IsEvent("round")   /\ DRound(E.X, E.vec, E.disk, E.zero, E.payloadOk, E.wellFormed, E.complete, E.anyErr, E.outside, E.limit, E.nranges)
@@ -19,7 +21,7 @@ TFinish  == IsEvent("finish")  /\ DFinish(E.valRet, E.eqB, E.sized)
 TCrash   == IsEvent("killed")  /\ DCrash
 
 Init == DInit /\ l = 1
-Next == TBegin \/ TStart \/ TScan \/ TCopy \/ TFindM \/ TReset \/ TRound \/ TSetBase \/ TSameBase \/ TFinish \/ TCrash
+Next == TBegin \/ TStart \/ TScan \/ TScanF \/ TCopy \/ TCopyF \/ TFindM \/ TReset \/ TRound \/ TSetBase \/ TSameBase \/ TFinish \/ TCrash
 Spec == Init /\ [][Next]_tvars
 Accepted == /\ PrintT(<<"MATCHED", TLCGet("stats").diameter - 1, Len(TraceLog)>>)
             /\ TLCGet("stats").diameter - 1 = Len(TraceLog)
